@@ -70,6 +70,17 @@ check("C04", "exploration",
       "that has a finally clause are not generated.",
       "bounded exhaustive enumeration of programs x all branch-decision vectors, path-in-graph oracle", "DESIGN.md §2 C04")
 
+check("C10", "exploration",
+      "Exhaustive product of taint programs: chains of <=2 links from a 14-link (thorough 17) alphabet - copy, operator, parameter "
+      "pass/return, field, element, display, dict, global container, object method, branch merge, loop-carried once, and the broken "
+      "variants overwritten / other object / other field / other variable / other argument - x source kinds (call, method call, "
+      "parameter) x sink kinds (call, method call) x placement (top level / function) x layout (one / two files); 632 programs quick. "
+      "Ground truth: CPython execution with a label-tracking value class, cross-checked against the construction tags. Required: "
+      "truth subset of the flows the real `run` pipeline reports (source line, sink line).",
+      "One source and one sink site per program; explicit flows only; field-read sources and field/record-write sinks are not "
+      "generated (their rule formats are not exercised). Small scope: chains of at most two links.",
+      "bounded exhaustive program enumeration, dynamic ground truth (label tracking in CPython) vs reported flows", "DESIGN.md §2 C10")
+
 check("C14", "exploration",
       "Finite configuration product of real separate processes (the lian CLI behind a launcher that only adds a pure yaml parse "
       "cache): 8 multi-file projects (6 Python incl. taint flows, callbacks, inheritance, packages; JavaScript; Java) x hash seeds "
